@@ -204,3 +204,78 @@ Lemma factor_blank_insensitive :
 Proof. vm_compute; reflexivity. Qed.
 Lemma factor_dimension_mismatch : unit_factor "bohr^3" "GPa" = None.
 Proof. vm_compute; reflexivity. Qed.
+
+(* ---------- the pattern substitution in general ------------------------------------------ *)
+Local Open Scope string_scope.
+Fixpoint nobrace (s : string) : bool :=
+  match s with
+  | EmptyString => true
+  | String c r => negb (Ascii.eqb c lbrace) && negb (Ascii.eqb c rbrace) && nobrace r
+  end.
+
+Lemma sapp_nil_r s : s ++ "" = s.
+Proof. induction s as [|c s IH]; cbn; [reflexivity | rewrite IH; reflexivity]. Qed.
+Lemma sapp_assoc a b c : (a ++ b) ++ c = a ++ (b ++ c).
+Proof. induction a as [|x a IH]; cbn; [reflexivity | rewrite IH; reflexivity]. Qed.
+Lemma sapp_cancel_l a x y : a ++ x = a ++ y -> x = y.
+Proof. induction a as [|c a IH]; cbn; [auto | intros H; inversion H; auto]. Qed.
+Lemma sapp_split_same_length a b x y :
+  String.length a = String.length b -> a ++ x = b ++ y -> a = b /\ x = y.
+Proof.
+  revert b; induction a as [|c a IH]; destruct b as [|d b]; cbn; intros HL H; try discriminate.
+  - split; [reflexivity | exact H].
+  - inversion H; subst. destruct (IH b) as [-> ->]; [lia | assumption | split; reflexivity].
+Qed.
+
+(** literal text is copied *)
+Lemma fmt_literal env s rest :
+  nobrace s = true -> fmt env (s ++ rest) None = option_map (append s) (fmt env rest None).
+Proof.
+  induction s as [|c s IH]; cbn [nobrace append]; intros H.
+  - destruct (fmt env rest None); reflexivity.
+  - rewrite !andb_true_iff, !negb_true_iff in H. destruct H as [[H1 H2] H3].
+    cbn [fmt]. rewrite H1, H2, (IH H3). destruct (fmt env rest None); reflexivity.
+Qed.
+(** a replacement field is replaced by the value bound to its name (KeyError = None otherwise) *)
+Lemma fmt_field env name acc rest :
+  nobrace name = true ->
+  fmt env (name ++ String rbrace rest) (Some acc) =
+  match dget (acc ++ name) env with
+  | Some v => option_map (append v) (fmt env rest None)
+  | None => None
+  end.
+Proof.
+  revert acc; induction name as [|c name IH]; intros acc H.
+  - cbn [append fmt]. replace (Ascii.eqb rbrace rbrace) with true by reflexivity. rewrite sapp_nil_r. reflexivity.
+  - cbn [nobrace] in H. rewrite !andb_true_iff, !negb_true_iff in H. destruct H as [[H1 H2] H3].
+    cbn [append fmt]. rewrite H1, H2, (IH _ H3), sapp_assoc. reflexivity.
+Qed.
+
+(** str.format on any pattern  l0 {n1} l1 {n2} l2  (the shape of every component-wise rule) *)
+Lemma format_two_fields env l0 n1 l1 n2 l2 v1 v2 :
+  nobrace l0 = true -> nobrace n1 = true -> nobrace l1 = true -> nobrace n2 = true -> nobrace l2 = true ->
+  dget n1 env = Some v1 -> dget n2 env = Some v2 ->
+  format (l0 ++ String lbrace (n1 ++ String rbrace (l1 ++ String lbrace (n2 ++ String rbrace l2)))) env =
+  Some (l0 ++ v1 ++ l1 ++ v2 ++ l2).
+Proof.
+  intros H0 H1 H2 H3 H4 E1 E2. unfold format.
+  rewrite (fmt_literal env l0 _ H0). cbn [fmt]. replace (Ascii.eqb lbrace lbrace) with true by reflexivity.
+  rewrite (fmt_field env n1 "" _ H1). cbn [append]. rewrite E1.
+  rewrite (fmt_literal env l1 _ H2). cbn [fmt]. replace (Ascii.eqb lbrace lbrace) with true by reflexivity.
+  rewrite (fmt_field env n2 "" _ H3). cbn [append]. rewrite E2.
+  rewrite <- (sapp_nil_r l2) at 1. rewrite (fmt_literal env l2 "" H4). cbn [fmt option_map].
+  rewrite sapp_nil_r. reflexivity.
+Qed.
+
+(** ... and it is injective in the field values as long as the values of the FIRST field have equal length
+    (component labels "ij" are always two digits): distinct (component, base) never share a file name *)
+Lemma two_field_pattern_injective l0 l1 l2 v1 v2 w1 w2 :
+  String.length v1 = String.length w1 ->
+  l0 ++ v1 ++ l1 ++ v2 ++ l2 = l0 ++ w1 ++ l1 ++ w2 ++ l2 ->
+  String.length v2 = String.length w2 ->
+  v1 = w1 /\ v2 = w2.
+Proof.
+  intros L1 H L2. apply sapp_cancel_l in H. apply sapp_split_same_length in H; [|exact L1].
+  destruct H as [-> H]. apply sapp_cancel_l in H. apply sapp_split_same_length in H; [|exact L2].
+  destruct H as [-> _]. split; reflexivity.
+Qed.
